@@ -235,6 +235,7 @@ def check(rep: Report, ctx: Ctx) -> None:
            detail="under `if json_per_line`, unconditionally per line")
     r137(rep, ctx)
     r138(rep, ctx)
+    r139(rep, ctx)
 
 
 def r137(rep: Report, ctx: Ctx) -> None:
@@ -360,3 +361,62 @@ def r138(rep: Report, ctx: Ctx) -> None:
                need <= (used | derived), fi=fi, node=b,
                detail=f"needs {sorted(need)}, reads "
                       f"{sorted((used | derived) & set(tvars))}")
+
+
+def r139(rep: Report, ctx: Ctx) -> None:
+    """Mapping lists arrive through pydantic as *one-shot iterators* when the
+    annotation is ``Iterable[..]``.  A normaliser that walks such a parameter
+    twice sees it empty the second time: every fall-back group of the mapping
+    silently normalises to ``()``."""
+    rep.rule("R13.9", "a parameter annotated Iterable / Iterator is "
+             "traversed at most once (or materialised first) in the mapping "
+             "normalisers", 2)
+    mod = ctx.index.module("json_config")
+    CONSUMERS = {"tuple", "list", "set", "frozenset", "sorted", "iter",
+                 "any", "all", "sum", "max", "min", "zip", "enumerate",
+                 "map", "filter", "dict", "next"}
+    checked = 0
+    funcs = list(mod.functions.values()) + [
+        m for c in mod.classes.values() for ms in c.methods.values()
+        for m in ms]
+    for fi in funcs:
+        defs = ctx.defs(fi)
+        cfg = ctx.cfg(fi)
+        for a in fi.node.args.args + fi.node.args.kwonlyargs:
+            ann = unparse(a.annotation) if a.annotation is not None else ""
+            if not ("Iterable" in ann or "Iterator" in ann
+                    or "Generator" in ann):
+                continue
+            name = a.arg
+            if len(defs.of(name)) != 1:
+                continue        # re-bound (e.g. materialised): not tracked
+            sites = []
+            pm = ctx.index.parents(fi)
+            for n in ast.walk(fi.node):
+                if not (isinstance(n, ast.Name) and n.id == name
+                        and isinstance(n.ctx, ast.Load)):
+                    continue
+                par = pm.get(n)
+                trav = (isinstance(par, (ast.For, ast.comprehension))
+                        and par.iter is n) or (
+                    isinstance(par, ast.Call) and n in par.args and (
+                        dotted(par.func) or "").split(".")[-1] in CONSUMERS) \
+                    or isinstance(par, ast.Starred)
+                if trav:
+                    nid = cfg.container(n)
+                    if nid is not None:
+                        sites.append((nid, n))
+            twice = [(s1, s2) for i, (s1, _) in enumerate(sites)
+                     for (s2, _) in sites[i + 1:]
+                     if s2 in cfg.reachable(s1) or s1 in cfg.reachable(s2)]
+            checked += 1
+            rep.ob("R13.9", f"{fi.short}({name}: {ann[:30]})", not twice,
+                   fi=fi, node=sites[-1][1] if sites else fi.node,
+                   detail=(f"{len(sites)} traversal(s) of '{name}'"
+                           + ("" if not twice else " on one path: an "
+                              "iterator handed in by the config loader is "
+                              "exhausted by the first traversal, the second "
+                              "sees nothing")))
+    if checked < 2:
+        raise AnalysisError("json_config: no Iterable-annotated parameters "
+                            "found")
